@@ -77,7 +77,7 @@ def main():
         'engines': [
             {'name': 'kani-weave', 'path': 'tools/check.py', 'serves_properties': sorted(CLAIMED),
              'kind_free_text': 'Kani 0.68 / CBMC 6.11: function contracts + proof harnesses woven into a per-run copy of the real source (tools/weave.py, contracts/*.rs)'},
-            {'name': 'verus-extract', 'path': 'tools/extract.py', 'serves_properties': ['C02', 'C08'],
+            {'name': 'verus-extract', 'path': 'tools/extract.py', 'serves_properties': ['C02', 'C08', 'C13', 'C14'],
              'kind_free_text': 'Verus 0.2026.09.13 on functions cut verbatim out of /repo on every run'},
         ],
         'checks': [],
